@@ -121,6 +121,14 @@ TEMPLATES = [
     ('Struct("l"/Lazy(Struct("a"/Byte, "b"/Int16ub)), "t"/Byte)', [dict(l=dict(a=1, b=2), t=3)]),
     ('LazyStruct("a"/Byte, "b"/Prefixed(Byte, GreedyBytes), "c"/Int16ub)', [dict(a=1, b=b'xy', c=3)]),
     ('LazyArray(3, Prefixed(Byte, GreedyBytes))', [[b'a', b'', b'xyz']]),
+    # read-to-end members behind fields that end off a byte boundary (the restreamed bit path keeps pending bits)
+    ('BitStruct("tag"/Nibble, "rest"/GreedyBytes)', [dict(tag=5, rest=bytes([1, 0, 1, 1])), dict(tag=15, rest=bytes([1, 0, 1, 1] + [0, 1] * 4))]),
+    ('Struct("h"/Byte, "b"/Bitwise(Struct("x"/BitsInteger(5), "y"/GreedyBytes)))', [dict(h=1, b=dict(x=17, y=bytes([1, 1, 0])))]),
+    ('Bitwise(Sequence(BitsInteger(3), Flag, GreedyRange(BitsInteger(4))))', [[5, True, [1, 15, 0]], [0, False, []]]),
+    ('Bitwise(Struct("a"/BitsInteger(6), "t"/Prefixed(BitsInteger(10), GreedyBytes)))', [dict(a=33, t=bytes([1, 0] * 4))]),
+    # integers beyond the exactly representable doubles
+    ('Struct("z"/ZigZag, "v"/VarInt, "a"/Array(2, ZigZag))', [dict(z=2 ** 63 - 1, v=2 ** 64 + 3, a=[-(2 ** 63), 10 ** 20 + 7]), dict(z=-(2 ** 53) - 1, v=2 ** 53 + 1, a=[2 ** 53 + 1, -(2 ** 62) - 5])]),
+    ('Prefixed(VarInt, GreedyRange(ZigZag))', [[2 ** 53 + 1, -(2 ** 60) - 1, 0, -1]]),
 ]
 
 
